@@ -1,7 +1,7 @@
 """C10 — scheduled management actions take effect exactly once, on time, in full.
 
-proof:           Prop_C10.v over SchedModel (event readers of input.go incl. slot reuse for pre-start events and the
-                 one-pass same-day shift, cursors and firing tests of nitro.go/run.go over the whole day loop, dueng split,
+proof:           Prop_C10.v over SchedModel (event readers of input.go incl. slot reuse for pre-start events, the
+                 strictly-increasing shift loops, the irrigation compaction, cursors and firing tests of nitro.go/run.go over the whole day loop, dueng split,
                  payload application) and RotationModel (sowing/harvest cursor); induction over the file lines and the days
 correspondence:  whole runs of the REAL simulator (in-process, day-loop probe) on generated fert_/til_/irr_/crop_ files
                  (4 date formats, several fields per file, split blocks, events before start / after end / on consecutive
@@ -17,11 +17,12 @@ from core import Corr, Fail, REPO, chunked_list
 from props import waterlib
 
 PROP_FILES = ["Prop_C10"]
-RULE = ("one case = one whole run (2-3 years) of a generated project; generated schedules cover: pre-start events "
-        "(incl. the day before start), events on BEGINN / ENDE-1 / ENDE / after ENDE, consecutive days, same-day pairs, "
-        "pair + next-day cascades, other fields' lines before/between/after, every FERTILIZ.TXT row, 4 date formats, "
-        "fertilisation factors; three dedicated finding cases (F18, pair reached by a cascade, tillage on BEGINN-1); "
-        "non-trivial = distinct (date format, schedule shape)")
+RULE = ("one case = one whole run (2-3 years) of a generated project; generated schedules cover: pre-start events of all "
+        "three kinds (incl. the day before start), events on BEGINN / ENDE-1 / ENDE / after ENDE, consecutive days, same-day "
+        "pairs, pair + next-day cascades, pairs reached by a displacement, three on one day, other fields' lines "
+        "before/between/after, every FERTILIZ.TXT row, 4 date formats, fertilisation factors; five regression cases of "
+        "repaired defects (two fertilisations on BEGINN, displaced pairs fert/tillage, all-pre-start tillage with one on "
+        "BEGINN-1, pre-start + later irrigation); non-trivial = distinct (date format, schedule shape)")
 TRUSTED = ["python calendar (datetime) for day numbers of generated dates (the converters are C12's subject)",
            "Go reflect/unsafe used by the harness to mute the management log on a COPY of the state for the Nitro replay"]
 ASSUMPTIONS = ["Go int arithmetic modelled on unbounded Z (day numbers < 2^31)",
@@ -140,14 +141,17 @@ def fits(p, l):
 
 
 def gen_dates(rnd, lo, hi, n, allow_pairs=True, avoid=None):
-    """n ascending day numbers in [lo, hi] with consecutive days, same-day pairs and cascades, inside class fits"""
+    """n ascending day numbers in [lo, hi] with consecutive days, same-day pairs, cascades, displaced pairs, triples"""
     if hi < lo or n <= 0:
         return []
     out = []
     d = lo + rnd.randrange(0, max(1, (hi - lo) // max(n, 1)))
     while len(out) < n and d <= hi:
         shape = rnd.random()
-        if allow_pairs and shape < 0.22 and len(out) + 2 <= n:
+        if allow_pairs and shape < 0.05 and len(out) + 3 <= n:
+            out += [d, d, d]                    # three on one day (outside the property's quantifier; carried out on d+1..d+3)
+            d += rnd.choice([0, 1, 4, 30])
+        elif allow_pairs and shape < 0.22 and len(out) + 2 <= n:
             out += [d, d]                       # same-day pair
             if rnd.random() < 0.5 and len(out) < n and d + 1 <= hi:
                 out.append(d + 1)               # cascade: next day as well
@@ -156,12 +160,12 @@ def gen_dates(rnd, lo, hi, n, allow_pairs=True, avoid=None):
                 d += 3
             else:
                 d += 2
-            d += rnd.choice([1, 1, 2, 5, 20, 60])      # keep a free day after the group
+            d += rnd.choice([-1, 0, 1, 1, 2, 5, 20, 60])   # sometimes the next group starts on a day a displaced event occupies
         elif shape < 0.45:
             out.append(d); d += 1                      # consecutive days
         else:
             out.append(d); d += rnd.choice([1, 2, 3, 7, 15, 40, 90, 150])
-    return [x for x in out if x <= hi]
+    return sorted(x for x in out if x <= hi)
 
 
 def make_case(rnd, idx, table, special=None):
@@ -209,10 +213,6 @@ def make_case(rnd, idx, table, special=None):
     if special == "pp-fert":
         d = B + 150
         body = [d, d, d + 1, d + 1, d + 40]
-    # at most one real fertilisation on BEGINN outside the F18 case; keep the class
-    if special not in ("f18", "pp-fert"):
-        while not fits(B, body):
-            body = gen_dates(rnd, B + 1, E + 5, nf)
     names = [r[0] for r in table]
     fert = []
     for i, d in enumerate(fd + body):
@@ -234,27 +234,22 @@ def make_case(rnd, idx, table, special=None):
     if special == "pre-till":
         till = [(B - 30, 10, 1), (B - 1, 15, 1)]
         tb = []
-    if special not in ("pp-till",):
-        ok = all(any(lo <= s <= hi for (lo, hi) in wins) for s in shifted(tb)) and (not tb or fits(tb[0], tb[1:]))
-        if not ok:
-            tb = [w[0] + 3 for w in wins if w[0] + 3 <= w[1]][:2]
+    # original and displaced dates must stay outside (sowing, harvest] of every crop (else the run is aborted)
+    ok = all(any(lo <= s <= hi for (lo, hi) in wins) for s in shifted(tb)) and tb == sorted(tb)
+    if not ok:
+        tb = [w[0] + 3 for w in wins if w[0] + 3 <= w[1]][:2]
     if not tb and not till and special is None and rnd.random() < 0.5:
         tb = [wins[0][0] + 2]
-    if special is None and not tb and till and till[-1][0] == B - 1:
-        till[-1] = (B - 2,) + till[-1][1:]
     for d in tb:
         till.append((d, rnd.choice([0, 5, 10, 15, 20, 25, 30]), rnd.choice([1, 1, 1, 2])))
     c["till"] = till
     # ---- irrigation (at most one per day)
     ni = rnd.randrange(0, 8)
-    idates = sorted(set(gen_dates(rnd, B + rnd.choice([0, 1, 200, 250]), E + 3, ni, allow_pairs=False)))
+    idates = sorted(set(pre(rnd.choice([0, 0, 1, 2])) + gen_dates(rnd, B + rnd.choice([0, 1, 200, 250]), E + 3, ni, allow_pairs=False)))
     if idates and rnd.random() < 0.3:
         idates = sorted(set(idates + [rnd.choice([E, E - 1, E + 1, B])]))
     if special == "pre-irr":
-        idates = sorted(set([B - 20, B - 1] + [d for d in idates if d <= E][:3] + [B + 250]))
-    elif not [d for d in idates if d <= E] or rnd.random() < 0.15:
-        # irrigations dated before the start only where no irrigation inside the period follows (see finding)
-        idates = sorted(set(pre(rnd.choice([1, 2])) + [d for d in idates if d > E]))
+        idates = sorted(set([B - 20, B - 1] + [d for d in idates if B <= d <= E][:3] + [B + 250]))
     c["irr"] = [(d, rnd.choice([5, 10, 15, 20, 25, 40]), rnd.choice([0, 0, 5, 20, 50])) for d in idates]
     # ---- other fields' lines and block layout: list of ("own", i) / ("other", text)
     c["others"] = others
@@ -544,21 +539,7 @@ def oracle(ctx, search):
     for cs in cases:
         tag = "c10_%d" % cs["idx"]
         def fail(key, what, **kw):
-            B = cs["B"]
-            cls = key
-            n_start = sum(1 for d, _, _ in cs["fert"] if d == B)
-            kf = [d for d, _, _ in cs["fert"] if d >= B]
-            kt = [d for d, _, _ in cs["till"] if d >= B]
-            if key.startswith("fertilization") and n_start >= 2:
-                cls = "two-fertilisations-on-start-day"
-            elif key.startswith("fertilization") and not fits(B, kf):
-                cls = "pair-reached-by-displacement:fertilization"
-            elif key.startswith("tillage") and kt and not fits(kt[0], kt[1:]):
-                cls = "pair-reached-by-displacement:tillage"
-            elif key.startswith("tillage") and not kt and cs["till"] and cs["till"][-1][0] == B - 1:
-                cls = "tillage-day-before-start-carried-out"
-            elif key.startswith("irrigation") and any(d < B for d, _, _ in cs["irr"]) and any(B <= d <= cs["E"] for d, _, _ in cs["irr"]):
-                cls = "irrigation-before-start-blocks-later"
+            cls = key.split('-')[0]
             fails.append(Fail(key="%s:%s:%s" % (cls, tag, key), what=what, case=tag, special=cs["special"], format=FMTS[cs["fmt"]],
                               begin=str(cs["begin"]), end=str(cs["end"]), fert=[(str(numday(d)), a, n) for d, a, n in cs["fert"]],
                               till=[(str(numday(d)), dep, ty) for d, dep, ty in cs["till"]],
@@ -654,12 +635,12 @@ def oracle(ctx, search):
     return fails
 
 
-LEVEL_TEXT = ("Machine-checked proof (Coq) over the model of the event readers, the same-day shift, the cursors/firing tests over the "
-              "whole day loop and the payload arithmetic, for every file content in the class 'fits' (all strictly ascending "
-              "schedules, same-day pairs, pair + next-day cascades), every start/end date and every sub-step count; the model is "
-              "compared with the real simulator on whole runs (arrays, every cursor advance, state jumps, bit-exact) and the "
-              "property is evaluated directly on the management log and the probe each run. The full-strength statement "
-              "(ascending, <= 2 per day) is refuted in Coq by three witnesses that are replayed on the real code (known findings).")
+LEVEL_TEXT = ("Machine-checked proof (Coq) over the model of the event readers, the shift loops, the irrigation compaction, the "
+              "cursors/firing tests over the whole day loop and the payload arithmetic: exactly-once/in-order/sub-step-1 for EVERY "
+              "file content, start/end date and sub-step count; the waited-for dates are the least strictly increasing dates not "
+              "earlier than the file dates, at most one day later in the class 'fits' (<= 2 per day, no pair reached by a "
+              "displacement). The model is compared with the real simulator on whole runs (arrays, every cursor advance, state "
+              "jumps, bit-exact) and the property is evaluated directly on the management log and the probe each run.")
 LEVEL_NOTE = ("Trusted: Coq kernel + vm_compute; harness/driver; python calendar for generated dates. NFOS[0]/NAOS[0] jumps are "
               "checked on the real code by replaying Nitro on the pre-state with the split added by hand (bit-exact), not "
               "through Coq (mineralisation runs in the same call). Axioms: only those of Coq's Reals library (payload theorems).")
